@@ -674,9 +674,7 @@ func EqualDumps(a, b [][]byte) bool {
 	}
 	eq := true
 	for i := range a {
-		if !bytes.Equal(a[i], b[i]) {
-			eq = false
-		}
+		eq = verifrt.And(eq, verifrt.BytesEq(a[i], b[i]))
 	}
 	return eq
 }
